@@ -1,4 +1,7 @@
 """C08 - decoding any byte string terminates with bounded work and memory."""
+import gc
+import tracemalloc
+
 from mc import fuzzspace, lib, steps
 
 ID = 'C08'
@@ -37,14 +40,34 @@ def _decode(data):
 
 
 def check_one(ctx, data, label, memory=False, retained=False):
+    """One input: steps under the monitor; with memory=True the very same
+    (first) call is also measured with tracemalloc - a second call could be
+    served from whatever the first one left behind."""
     global _MON
     if _MON is None:
-        lib.pamqp()             # import outside the traced region
+        lib.pamqp()             # import outside the monitored region
         _MON = steps.Monitor()
+        try:                    # one-time allocations are not retention
+            _decode(b'\x01\x00\x01\x00\x00\x00\x04\x00\x5a\x00\x0a\xce')
+            _decode(b'\x02\x00\x01\x00\x00\x00\x0e\x00\x3c' + b'\x00' * 12 +
+                    b'\xce')
+        except Exception:  # noqa
+            pass
     budget = 256 + 16 * len(data)
-    outcome, _value, used = _MON.run(_decode, data, budget)
+    if memory:
+        if retained:
+            gc.collect()
+        tracemalloc.reset_peak()
+        base = tracemalloc.get_traced_memory()[0]
+    outcome, value, used = _MON.run(_decode, data, budget)
     ctx.calls()
     ctx.valid()
+    if memory:
+        peak = tracemalloc.get_traced_memory()[1] - base
+        value = None
+        if retained:
+            gc.collect()
+            kept = max(0, tracemalloc.get_traced_memory()[0] - base)
     if outcome != 'budget':
         ctx.peak('steps', used)
         ctx.peak('steps_minus_256_per_1000_bytes',
@@ -60,7 +83,6 @@ def check_one(ctx, data, label, memory=False, retained=False):
         return used
     ctx.outcome('returned' if outcome == 'ok' else 'raised')
     if memory:
-        peak, _o = steps.peak_memory(_decode, data)
         limit = (256 << 10) + 64 * len(data)
         ctx.peak('peak_bytes', peak)
         ctx.peak('peak_bytes_per_input_byte_x100',
@@ -68,13 +90,14 @@ def check_one(ctx, data, label, memory=False, retained=False):
         ctx.count('memory_measured')
         if peak > limit:
             ctx.outcome('memory-exceeded')
-            ctx.violation('memory|' + data.hex()[:400],
+            ctx.violation('memory|' + (data.hex()[:400] if len(data) < 4000
+                                       else label),
                           '{}: decoding {} bytes allocated {} bytes (limit '
                           '{})'.format(label, len(data), peak, limit),
-                          {'hex': data.hex(), 'label': label, 'memory': True},
+                          {'hex': data.hex() if len(data) < 4000 else None,
+                           'label': label, 'memory': True},
                           '<= %d bytes' % limit, '%d bytes' % peak)
     if retained:
-        kept = steps.retained_memory(_decode, data)
         ctx.peak('retained_bytes', kept)
         ctx.count('retention_measured')
         if kept > RETAINED_LIMIT:
@@ -101,7 +124,6 @@ def run(task, ctx):
     if ctx.tier == 'thorough':
         kinds += ('byte',)
     memory = task[0] in kinds and (ctx.tier == 'thorough' or len(task) < 4)
-    import tracemalloc
     if memory:
         tracemalloc.start(1)
     elif tracemalloc.is_tracing():
@@ -122,5 +144,17 @@ def run(task, ctx):
 
 
 def replay(case, ctx):
-    check_one(ctx, bytes.fromhex(case['hex']), case.get('label', ''),
-              bool(case.get('memory')))
+    tracemalloc.start(1)
+    try:
+        if case.get('hex') is None:
+            # large generated input: find it again by its label
+            for k in range(len(fuzzspace.LARGE_KINDS)):
+                for label, data in fuzzspace.inputs(('large', k), 'thorough'):
+                    if label == case.get('label'):
+                        check_one(ctx, data, label, True, True)
+            return
+        check_one(ctx, bytes.fromhex(case['hex']), case.get('label', ''),
+                  bool(case.get('memory') or case.get('retained')),
+                  bool(case.get('retained')))
+    finally:
+        tracemalloc.stop()
